@@ -198,6 +198,23 @@ Proof.
   reflexivity.
 Qed.
 
+Lemma fuel_split a b m : (S (a + S b) + m = S a + (S b + m))%nat.
+Proof. lia. Qed.
+
+Lemma root_le_lt p q c : root_le p c = true -> (p < q)%nat -> root_lt q c = true.
+Proof. destruct c; simpl; [auto|]. intros H Hpq. apply Nat.leb_le in H. apply Nat.ltb_lt. lia. Qed.
+
+Lemma terminated_not (ts : list ascii) (c0 : ascii) s :
+  forallb (fun c => existsb (Ascii.eqb c) caret_chars) ts = true ->
+  existsb (Ascii.eqb c0) caret_chars = false -> terminated ts (String c0 s) = false.
+Proof.
+  unfold terminated. intros Hok Hc. induction ts as [|c tl IH]; [reflexivity|].
+  cbn [forallb] in Hok. apply andb_true_iff in Hok. destruct Hok as [Hc1 Hok].
+  cbn [existsb]. rewrite IH by exact Hok. rewrite orb_false_r. cbn [starts_with].
+  destruct (Ascii.eqb c c0) eqn:E; [|reflexivity].
+  apply Ascii.eqb_eq in E. subst. congruence.
+Qed.
+
 Section Loop.
 Variable atom : list ascii -> list token -> pres (ptree * list token).
 Variable terms : list ascii.
@@ -277,7 +294,7 @@ Proof.
     destruct Hgood as [Hgl Hgr].
     simpl in Hroot. apply Nat.ltb_lt in Hroot.
     cbn [citers ctoks rframes rtop].
-    replace (S (citers l + S (citers r')) + m)%nat with (S (citers l) + (S (citers r') + m))%nat by lia.
+    rewrite fuel_split.
     rewrite <- app_assoc. cbn [app].
     rewrite (IHl o fs1 fs2 t (S (citers r') + m)%nat (TP (binop_text o') :: ctoks r' ++ rest)); try assumption.
     + (* now "o' r'" on top of l's right spine *)
@@ -289,8 +306,933 @@ Proof.
       * cbn [negb poppable frame_row]. unfold poppable. cbn [frame_row]. rewrite should_pop_infix.
         apply negb_true_iff. apply Nat.leb_gt. exact Hroot.
     + (* l fits under o *)
-      destruct l as [|ol ll lr]; [reflexivity|]. simpl in Hl |- *.
-      apply Nat.leb_le in Hl. apply Nat.ltb_lt. lia.
+      apply (root_le_lt (cprec o') (cprec o)); assumption.
     + apply follows_ok_op.
 Qed.
+
+(* ---- the left spine: the leftmost operand is already on the stack, under prefix operators ---- *)
+Fixpoint ctail (c : ctree) : list token :=
+  match c with
+  | CAtom _ _ => []
+  | CBin o l r => ctail l ++ TP (binop_text o) :: ctoks r
+  end.
+Fixpoint cfirst (c : ctree) : list token * ptree :=
+  match c with CAtom toks t => (toks, t) | CBin _ l _ => cfirst l end.
+(* the tree of the chain with another tree in place of its leftmost operand *)
+Fixpoint ctree_with (t0 : ptree) (c : ctree) : ptree :=
+  match c with
+  | CAtom _ _ => t0
+  | CBin o l r => PInfix (binop_text o) (ctree_with t0 l) (ctree_tree r)
+  end.
+(* frames and top operand once the whole chain has been read *)
+Fixpoint lstate (P : list frame) (t0 : ptree) (c : ctree) : list frame * ptree :=
+  match c with
+  | CAtom _ _ => (P, t0)
+  | CBin o l r => (rframes r ++ [FInfix (plug (fst (lstate P t0 l)) (snd (lstate P t0 l))) o], rtop r)
+  end.
+
+Lemma ctoks_split c : ctoks c = fst (cfirst c) ++ ctail c.
+Proof.
+  induction c as [toks t|o l IHl r IHr]; simpl; [rewrite app_nil_r; reflexivity|].
+  rewrite IHl at 1. rewrite <- app_assoc. reflexivity.
+Qed.
+
+Lemma ctail_head c : ctail c = [] \/ exists o tl, ctail c = TP (binop_text o) :: tl.
+Proof.
+  induction c as [toks t|o l IHl r IHr]; [left; reflexivity|]. right. cbn [ctail].
+  destruct IHl as [E|[o' [tl E]]]; rewrite E.
+  - exists o. eexists. reflexivity.
+  - exists o'. eexists. reflexivity.
+Qed.
+
+Lemma plug_lstate P t0 c : plug (fst (lstate P t0 c)) (snd (lstate P t0 c)) = ctree_with (plug P t0) c.
+Proof.
+  induction c as [toks t|o l IHl r IHr]; [reflexivity|].
+  cbn [lstate fst snd ctree_with]. rewrite plug_app, plug_rframes. cbn [plug apply_frame].
+  rewrite IHl. reflexivity.
+Qed.
+
+Definition is_prefix_frame (f : frame) : bool := match f with FPrefix _ => true | FInfix _ _ => false end.
+
+Lemma prefix_frames_poppable o P : forallb is_prefix_frame P = true -> forallb (poppable o) P = true.
+Proof.
+  induction P as [|f P IH]; [reflexivity|]. simpl. intros H. apply andb_true_iff in H. destruct H as [Hf H].
+  rewrite IH by exact H. destruct f; [discriminate|]. unfold poppable. simpl. rewrite should_pop_prefix. reflexivity.
+Qed.
+
+Lemma lstate_poppable o P t0 c : forallb is_prefix_frame P = true -> cwf c = true -> root_le (cprec o) c = true ->
+  forallb (poppable o) (fst (lstate P t0 c)) = true.
+Proof.
+  intros HP Hwf Hroot. destruct c as [toks t|o' l r].
+  - simpl. apply prefix_frames_poppable. exact HP.
+  - cbn [lstate fst].
+    change (rframes r ++ [FInfix (plug (fst (lstate P t0 l)) (snd (lstate P t0 l))) o'])
+      with (rframes r ++ [FInfix (plug (fst (lstate P t0 l)) (snd (lstate P t0 l))) o']).
+    rewrite forallb_app. cbn [cwf] in Hwf.
+    apply andb_true_iff in Hwf. destruct Hwf as [Hwf Hwr].
+    apply andb_true_iff in Hwf. destruct Hwf as [Hwf Hwl].
+    apply andb_true_iff in Hwf. destruct Hwf as [Hl Hr].
+    simpl in Hroot. pose proof Hroot as Hroot'. apply Nat.leb_le in Hroot.
+    rewrite rframes_poppable; [|exact Hwr|apply (root_le_trans (cprec o')); [apply root_lt_le; exact Hr|exact Hroot]].
+    simpl. unfold poppable. simpl. rewrite should_pop_infix. rewrite Hroot'. reflexivity.
+Qed.
+
+Lemma left_spine : forall c P t0 m rest,
+  cwf c = true -> cclear c = true -> atoms_good c ->
+  forallb is_prefix_frame P = true -> follows_ok rest = true ->
+  infix_loop atom (citers c + m) terms (ops_of P) (stack_of P t0) (ctail c ++ rest)
+  = infix_loop atom m terms (ops_of (fst (lstate P t0 c))) (stack_of (fst (lstate P t0 c)) (snd (lstate P t0 c))) rest.
+Proof.
+  induction c as [toks t|o l IHl r IHr]; intros P t0 m rest Hwf Hclear Hgood HP Hfol.
+  - reflexivity.
+  - cbn [cwf] in Hwf.
+    apply andb_true_iff in Hwf. destruct Hwf as [Hwf Hwr].
+    apply andb_true_iff in Hwf. destruct Hwf as [Hwf Hwl].
+    apply andb_true_iff in Hwf. destruct Hwf as [Hl Hr].
+    cbn [cclear] in Hclear.
+    apply andb_true_iff in Hclear. destruct Hclear as [Hclear Hcr].
+    apply andb_true_iff in Hclear. destruct Hclear as [Hco Hcl].
+    apply negb_true_iff in Hco.
+    destruct Hgood as [Hgl Hgr].
+    cbn [citers ctail lstate fst snd].
+    rewrite <- Nat.add_assoc. rewrite <- app_assoc. cbn [app].
+    rewrite (IHl P t0 (S (citers r) + m)%nat (TP (binop_text o) :: ctoks r ++ rest)); try assumption;
+      [|apply follows_ok_op].
+    rewrite <- (app_nil_r (fst (lstate P t0 l))) at 1 2.
+    rewrite (right_operand r o (fst (lstate P t0 l)) [] (snd (lstate P t0 l)) m rest); try assumption.
+    + reflexivity.
+    + apply lstate_poppable; assumption.
+    + reflexivity.
+Qed.
+
+(* ---- where the loop ends ---------------------------------------------------------------------- *)
+(* after a complete expression: end of input, or a closing bracket of either kind *)
+Definition stop_ok (rest : list token) : bool :=
+  match rest with
+  | [] => true
+  | TP s :: _ => terminated terms s || String.eqb s ")" || String.eqb s ">"
+  | _ => false
+  end.
+
+Lemma loop_finish m ops stack rest : stop_ok rest = true ->
+  infix_loop atom (S m) terms ops stack rest
+  = match pop_all ops stack with
+    | POk e => POk (e, rest)
+    | PNo => PNo | PCrit id => PCrit id | PCrash s => PCrash s | PFuel => PFuel
+    end.
+Proof.
+  intros H. destruct rest as [|tk rest]; [reflexivity|].
+  destruct tk; try discriminate. cbn [stop_ok] in H. cbn [infix_loop].
+  destruct (terminated terms s) eqn:E; [reflexivity|]. cbn [orb] in H.
+  apply orb_true_iff in H. destruct H as [H|H]; apply String.eqb_eq in H; subst s; reflexivity.
+Qed.
+
+(* every closing character of an enclosing ^x...x is one of the admitted ones *)
+Definition terms_ok : bool := forallb (fun c => existsb (Ascii.eqb c) caret_chars) terms.
+
+Lemma terms_not (c0 : ascii) s : terms_ok = true ->
+  existsb (Ascii.eqb c0) caret_chars = false -> terminated terms (String c0 s) = false.
+Proof. unfold terms_ok. apply terminated_not. Qed.
+
+Lemma stop_follows rest : terms_ok = true -> stop_ok rest = true -> follows_ok rest = true.
+Proof.
+  intros Hok H. destruct rest as [|tk rest]; [reflexivity|]. destruct tk; try reflexivity.
+  cbn [stop_ok follows_ok] in *.
+  destruct (String.eqb s "(") eqn:E1.
+  - apply String.eqb_eq in E1. subst s. rewrite (terms_not "(" "" Hok) in H by reflexivity. discriminate.
+  - cbn [negb andb]. destruct (String.eqb s ":") eqn:E2; [|reflexivity].
+    apply String.eqb_eq in E2. subst s. cbn [negb orb]. simpl in H. rewrite !orb_false_r in H. exact H.
+Qed.
+
+(* ---- the first loop ---------------------------------------------------------------------------- *)
+(* a prefix operator is only taken after an operand failed to match there: the '-' of a number belongs to the number *)
+Definition no_num_after (u : unop) (rest : list token) : bool :=
+  match u, rest with
+  | UNeg, TNum _ :: _ => false
+  | _, _ => true
+  end.
+Hypothesis prefix_no_atom : forall u rest, no_num_after u rest = true -> atom terms (TP (unop_text u) :: rest) = PNo.
+
+Definition pre_tokens (pre : list unop) : list token := map (fun u => TP (unop_text u)) pre.
+(* [P]: prefix operators read so far, last first *)
+Definition pre_frames (pre : list unop) : list frame := map FPrefix (rev pre).
+
+Fixpoint pre_ok (pre : list unop) (toks0 : list token) : bool :=
+  match pre with
+  | [] => true
+  | [u] => no_num_after u toks0
+  | _ :: rest => pre_ok rest toks0
+  end.
+
+Lemma prefix_tok_not_terminated u : terms_ok = true -> terminated terms (unop_text u) = false.
+Proof. intros H. destruct u; apply terms_not; try exact H; reflexivity. Qed.
+
+Lemma prefix_phase_reads : forall pre done toks0 t0 rest k,
+  terms_ok = true -> pre_ok pre toks0 = true ->
+  toks0 <> [] ->
+  atom terms (toks0 ++ rest) = POk (t0, rest) ->
+  prefix_phase atom (length pre + S k) terms (ops_of (pre_frames done)) (pre_tokens pre ++ toks0 ++ rest)
+  = POk (ops_of (pre_frames (done ++ pre)), t0, rest).
+Proof.
+  induction pre as [|u pre IH]; intros done toks0 t0 rest k Hok Hpre Hne Hatom.
+  - cbn [length plus pre_tokens map app prefix_phase]. rewrite Hatom. rewrite app_nil_r. reflexivity.
+  - cbn [length plus pre_tokens map app prefix_phase].
+    assert (Hno : atom terms (TP (unop_text u) :: pre_tokens pre ++ toks0 ++ rest) = PNo).
+    { apply prefix_no_atom. destruct pre as [|u2 pre].
+      - simpl in Hpre. cbn [pre_tokens map app]. destruct u; try reflexivity.
+        destruct toks0 as [|tk toks0]; [congruence|]. destruct tk; try reflexivity. simpl in Hpre. discriminate.
+      - destruct u; reflexivity. }
+    fold (pre_tokens pre). rewrite Hno. rewrite (prefix_tok_not_terminated u Hok). rewrite lookup_prow.
+    replace (prow u :: ops_of (pre_frames done)) with (ops_of (pre_frames (done ++ [u]))).
+    + rewrite (IH (done ++ [u]) toks0 t0 rest k Hok); try assumption.
+      * rewrite <- app_assoc. reflexivity.
+      * destruct pre; [reflexivity|exact Hpre].
+    + unfold pre_frames. rewrite rev_app_distr. reflexivity.
+Qed.
+
+Lemma pre_frames_prefix pre : forallb is_prefix_frame (pre_frames pre) = true.
+Proof. unfold pre_frames. induction (rev pre); simpl; auto. Qed.
+
+Lemma operands_pre_frames pre : operands (pre_frames pre) = [].
+Proof. unfold pre_frames. induction (rev pre); simpl; auto. Qed.
+
+(* prefix operators applied to a tree, first one outermost *)
+Fixpoint wrap (pre : list unop) (t : ptree) : ptree :=
+  match pre with [] => t | u :: rest => PPrefix (unop_text u) (wrap rest t) end.
+
+Lemma plug_pre_frames pre t : plug (pre_frames pre) t = wrap pre t.
+Proof.
+  unfold pre_frames. revert t. induction pre as [|u pre IH]; intros t; [reflexivity|].
+  cbn [rev]. rewrite map_app, plug_app. rewrite IH. reflexivity.
+Qed.
+
+(* ---- one whole expression at one bracket level -------------------------------------------------- *)
+Lemma level_parses pre c rest n :
+  terms_ok = true -> cwf c = true -> cclear c = true -> atoms_good c ->
+  pre_ok pre (fst (cfirst c)) = true -> stop_ok rest = true ->
+  (length pre + citers c < n)%nat ->
+  match prefix_phase atom n terms [] (pre_tokens pre ++ ctoks c ++ rest) with
+  | POk (ops, e, rest') => infix_loop atom n terms ops [e] rest'
+  | PNo => PNo | PCrit id => PCrit id | PCrash s => PCrash s | PFuel => PFuel
+  end
+  = POk (ctree_with (wrap pre (snd (cfirst c))) c, rest).
+Proof.
+  intros Hok Hwf Hclear Hgood Hpre Hstop Hn.
+  assert (Hfol : follows_ok rest = true) by (apply stop_follows; assumption).
+  (* the leftmost operand *)
+  assert (Hfirst : atom_good (fst (cfirst c)) (snd (cfirst c))).
+  { clear -Hgood. induction c as [toks t|o l IHl r IHr]; [exact Hgood|]. apply IHl. apply Hgood. }
+  destruct Hfirst as [Hpf Hatom].
+  assert (Hne : fst (cfirst c) <> []) by (intros E; rewrite E in Hpf; discriminate).
+  assert (Hfol1 : follows_ok (ctail c ++ rest) = true).
+  { destruct (ctail_head c) as [E|[o [tl E]]]; rewrite E; [exact Hfol|apply follows_ok_op]. }
+  rewrite ctoks_split. rewrite <- app_assoc.
+  replace n with (length pre + S (n - length pre - 1))%nat at 1 by lia.
+  change (@nil op_row) with (ops_of (pre_frames [])).
+  rewrite (prefix_phase_reads pre [] (fst (cfirst c)) (snd (cfirst c)) (ctail c ++ rest) _ Hok Hpre Hne
+             (Hatom _ Hfol1)).
+  cbn [app].
+  replace [snd (cfirst c)] with (stack_of (pre_frames pre) (snd (cfirst c)))
+    by (unfold stack_of; rewrite operands_pre_frames; reflexivity).
+  replace n with (citers c + S (n - citers c - 1))%nat by lia.
+  rewrite (left_spine c (pre_frames pre) (snd (cfirst c)) _ rest Hwf Hclear Hgood (pre_frames_prefix pre) Hfol).
+  rewrite (loop_finish _ _ _ rest Hstop). rewrite pop_all_frames.
+  rewrite plug_lstate. rewrite plug_pre_frames. reflexivity.
+Qed.
 End Loop.
+
+(* ================================================================================================ *)
+(* 4. expressions as chains *)
+
+(* the tree a literal is read as (what it is worth: Proofs/C05Lex.v) *)
+Definition rad50_string (cs : list N) : string := string_of_list_ascii (map ascii_of_N cs).
+Definition lit_tree (l : literal) : ptree :=
+  match l with
+  | LNum neg _ _ _ n => PNum (signed neg n) false false
+  | LBad89 neg ds => if neg then PNum (signed true (horner 10 ds)) false true
+                     else PNum (signed false (horner 10 ds)) true false
+  | LChar1 c => PChar [c]
+  | LChar2 c1 c2 => PChar [c1; c2]
+  | LRad50 cs => match rad50_literal (rad50_string cs) with
+                 | LexRad v errs => PRad50 v errs
+                 | _ => PDot (* not reached for literals admitted by lit_ok *)
+                 end
+  end.
+
+Definition xtoks (pc : list unop * ctree) : list token := pre_tokens (fst pc) ++ ctoks (snd pc).
+Definition xtree (pc : list unop * ctree) : ptree := ctree_with (wrap (fst pc) (snd (cfirst (snd pc)))) (snd pc).
+
+(* mirrors Spec.Arith.pr: the prefix operators in front, and the chain of the outermost bracket level *)
+Fixpoint xchain (lead : bool) (e : expr) : list unop * ctree :=
+  match e with
+  | Lit l => ([], CAtom (lit_tokens l) (lit_tree l))
+  | Sym s => ([], CAtom [TSym s] (PSym s false))
+  | Dot => ([], CAtom [TDot] PDot)
+  | Group b x =>
+      ([], CAtom (TP (open_text b) :: xtoks (xchain true x) ++ [TP (close_text b)])
+                 (PParen (open_text b) (xtree (xchain true x))))
+  | Un u x =>
+      let inner : list unop * ctree :=
+        match x with
+        | Un _ _ => xchain true x
+        | Bin _ _ _ => ([], CAtom (paren (xtoks (xchain true x))) (PParen "(" (xtree (xchain true x))))
+        | Lit l => match u with
+                   | UNeg => if unsigned_number l
+                             then ([], CAtom (paren (xtoks (xchain true x))) (PParen "(" (xtree (xchain true x))))
+                             else xchain false x
+                   | _ => xchain false x
+                   end
+        | _ => xchain false x
+        end in
+      if lead then (u :: fst inner, snd inner)
+      else ([], CAtom (paren (xtoks (u :: fst inner, snd inner))) (PParen "(" (xtree (u :: fst inner, snd inner))))
+  | Bin o l r =>
+      let L : list unop * ctree :=
+        match l with
+        | Bin ol _ _ => if Nat.ltb (cprec o) (cprec ol)
+                        then ([], CAtom (paren (xtoks (xchain true l))) (PParen "(" (xtree (xchain true l))))
+                        else xchain lead l
+        | _ => xchain lead l
+        end in
+      let R : ctree :=
+        match r with
+        | Bin or _ _ => if Nat.ltb (cprec or) (cprec o)
+                        then snd (xchain false r)
+                        else CAtom (paren (xtoks (xchain true r))) (PParen "(" (xtree (xchain true r)))
+        | _ => snd (xchain false r)
+        end in
+      (fst L, CBin o (snd L) R)
+  end.
+
+Lemma xchain_bin lead o l r : xchain lead (Bin o l r) =
+      (fst (match l with
+        | Bin ol _ _ => if Nat.ltb (cprec o) (cprec ol)
+                        then ([], CAtom (paren (xtoks (xchain true l))) (PParen "(" (xtree (xchain true l))))
+                        else xchain lead l
+        | _ => xchain lead l
+        end), CBin o (snd (match l with
+        | Bin ol _ _ => if Nat.ltb (cprec o) (cprec ol)
+                        then ([], CAtom (paren (xtoks (xchain true l))) (PParen "(" (xtree (xchain true l))))
+                        else xchain lead l
+        | _ => xchain lead l
+        end)) (match r with
+        | Bin or _ _ => if Nat.ltb (cprec or) (cprec o)
+                        then snd (xchain false r)
+                        else CAtom (paren (xtoks (xchain true r))) (PParen "(" (xtree (xchain true r)))
+        | _ => snd (xchain false r)
+        end)).
+Proof. reflexivity. Qed.
+
+Lemma pr_bin lead o l r : pr lead (Bin o l r) =
+      (match l with
+       | Bin ol _ _ => if (cprec o <? cprec ol)%nat then paren (pr true l) else pr lead l
+       | _ => pr lead l
+       end ++
+       TP (binop_text o) ::
+       match r with
+       | Bin or _ _ => if (cprec or <? cprec o)%nat then pr false r else paren (pr true r)
+       | _ => pr false r
+       end).
+Proof. reflexivity. Qed.
+
+Lemma xchain_nolead_pre e : fst (xchain false e) = [].
+Proof.
+  induction e as [l|s| |u x IH|o l IHl r IHr|b x IH]; try reflexivity.
+  cbn [xchain fst]. destruct l as [| | | |ol ll lr|]; try exact IHl.
+  destruct (Nat.ltb (cprec o) (cprec ol)); [reflexivity|exact IHl].
+Qed.
+
+Lemma xtoks_nolead e : xtoks (xchain false e) = ctoks (snd (xchain false e)).
+Proof. unfold xtoks. rewrite xchain_nolead_pre. reflexivity. Qed.
+
+(* the chain prints exactly as Spec.Arith.pr does *)
+Lemma xtoks_pr : forall e lead, xtoks (xchain lead e) = pr lead e.
+Proof.
+  induction e as [l|s| |u x IH|o l IHl r IHr|b x IH]; intros lead; try reflexivity.
+  - (* Un *)
+    cbn [xchain pr].
+    assert (Hinner : xtoks (u :: fst (match x with
+        | Un _ _ => xchain true x
+        | Bin _ _ _ => ([], CAtom (paren (xtoks (xchain true x))) (PParen "(" (xtree (xchain true x))))
+        | Lit l => match u with
+                   | UNeg => if unsigned_number l
+                             then ([], CAtom (paren (xtoks (xchain true x))) (PParen "(" (xtree (xchain true x))))
+                             else xchain false x
+                   | _ => xchain false x
+                   end
+        | _ => xchain false x
+        end), snd (match x with
+        | Un _ _ => xchain true x
+        | Bin _ _ _ => ([], CAtom (paren (xtoks (xchain true x))) (PParen "(" (xtree (xchain true x))))
+        | Lit l => match u with
+                   | UNeg => if unsigned_number l
+                             then ([], CAtom (paren (xtoks (xchain true x))) (PParen "(" (xtree (xchain true x))))
+                             else xchain false x
+                   | _ => xchain false x
+                   end
+        | _ => xchain false x
+        end)) = TP (unop_text u) ::
+        match x with
+        | Un _ _ => pr true x
+        | Bin _ _ _ => paren (pr true x)
+        | Lit l => match u with
+                   | UNeg => if unsigned_number l then paren (pr true x) else pr false x
+                   | _ => pr false x
+                   end
+        | _ => pr false x
+        end).
+    { unfold xtoks at 1. cbn [fst snd pre_tokens map app]. f_equal.
+      destruct x as [l|s| |u2 x2|o2 l2 r2|b2 x2].
+      - destruct u; try (rewrite <- (IH false); reflexivity).
+        destruct (unsigned_number l); [|rewrite <- (IH false); reflexivity].
+        cbn [fst snd pre_tokens map app ctoks]. rewrite (IH true). reflexivity.
+      - rewrite <- (IH false). reflexivity.
+      - rewrite <- (IH false). reflexivity.
+      - rewrite <- (IH true). reflexivity.
+      - cbn [fst snd pre_tokens map app ctoks]. rewrite (IH true). reflexivity.
+      - rewrite <- (IH false). reflexivity. }
+    destruct lead.
+    + exact Hinner.
+    + unfold xtoks at 1. cbn [fst snd pre_tokens map app ctoks]. rewrite Hinner. reflexivity.
+  - (* Bin *)
+    rewrite xchain_bin, pr_bin. unfold xtoks at 1. cbn [fst snd ctoks]. rewrite app_assoc. f_equal.
+    + destruct l as [| | | |ol ll lr|]; try (rewrite <- (IHl lead); reflexivity).
+      destruct (Nat.ltb (cprec o) (cprec ol)).
+      * cbn [fst snd pre_tokens map app ctoks]. rewrite (IHl true). reflexivity.
+      * rewrite <- (IHl lead). reflexivity.
+    + f_equal. destruct r as [| | | |or rl rr|]; try (rewrite <- (IHr false), xtoks_nolead; reflexivity).
+      destruct (Nat.ltb (cprec or) (cprec o)).
+      * rewrite <- (IHr false), xtoks_nolead. reflexivity.
+      * cbn [ctoks]. rewrite (IHr true). reflexivity.
+  - (* Group *)
+    cbn [xchain pr]. unfold xtoks at 1. cbn [fst snd pre_tokens map app ctoks]. rewrite (IH true). reflexivity.
+Qed.
+
+(* ---- operands: how expression_literal_rec reads each kind of atom ------------------------------ *)
+Section Atoms.
+Variable rec : list ascii -> list token -> pres (ptree * list token).
+Variable terms : list ascii.
+
+Lemma call_loop_done n value rest : follows_ok terms rest = true ->
+  call_loop rec (S n) terms value rest = POk (value, rest).
+Proof.
+  intros H. destruct rest as [|tk rest]; [reflexivity|]. destruct tk; try reflexivity.
+  cbn [follows_ok] in H. apply andb_true_iff in H. destruct H as [H _].
+  cbn [call_loop]. rewrite H. reflexivity.
+Qed.
+
+Lemma take_colon_none rest : follows_ok terms rest = true -> take_colon terms rest = (false, rest).
+Proof.
+  intros H. destruct rest as [|tk rest]; [reflexivity|]. destruct tk; try reflexivity.
+  cbn [follows_ok] in H. apply andb_true_iff in H. destruct H as [_ H].
+  cbn [take_colon]. destruct (String.eqb s ":"); [|reflexivity].
+  cbn [negb orb] in H. rewrite H. reflexivity.
+Qed.
+
+(* a literal-like operand: parse_literal succeeds and nothing that follows is a call *)
+Lemma literal_atom toks t : 
+  match toks with TP s :: _ => opening s = None | _ => True end ->
+  (forall rest, follows_ok terms rest = true -> parse_literal terms (toks ++ rest) = POk (t, rest)) ->
+  forall rest, follows_ok terms rest = true -> parse_atom rec terms (toks ++ rest) = POk (t, rest).
+Proof.
+  intros Hopen Hlit rest Hfol. unfold parse_atom. rewrite (Hlit rest Hfol).
+  rewrite (call_loop_done _ t rest Hfol).
+  destruct toks as [|tk toks]; cbn [app].
+  - destruct rest as [|tk rest]; [reflexivity|]. destruct tk; try reflexivity.
+    (* toks empty cannot happen for a successful literal, but the statement is still true only if ... *)
+    specialize (Hlit (TP s :: rest) Hfol). cbn [app] in Hlit.
+    destruct (opening s) as [[closing nt]|] eqn:E; [|reflexivity].
+    exfalso. unfold parse_literal in Hlit. destruct rest as [|tk2 rest2]; [discriminate|].
+    destruct tk2; try discriminate.
+    destruct (negb (String.eqb s "-")) eqn:E2; [discriminate|].
+    apply negb_false_iff in E2. apply String.eqb_eq in E2. subst s. discriminate.
+  - destruct tk; try reflexivity. rewrite Hopen. reflexivity.
+Qed.
+
+Lemma number_atom neg s v i8 rep :
+  lex_number neg s = LexNum v i8 rep ->
+  let toks := (if neg then [TP "-"] else []) ++ [TNum s] in
+  postfix_follow toks = false /\
+  forall rest, follows_ok terms rest = true -> parse_atom rec terms (toks ++ rest) = POk (PNum v i8 rep, rest).
+Proof.
+  intros Hlex toks. split; [destruct neg; reflexivity|].
+  apply literal_atom.
+  - destruct neg; simpl; [reflexivity|exact I].
+  - intros rest Hfol. subst toks. destruct neg; cbn [app parse_literal].
+    + change (negb (String.eqb "-" "-")) with false. cbv iota.
+      rewrite (take_colon_none rest Hfol). cbn [fst]. rewrite Hlex. reflexivity.
+    + rewrite (take_colon_none rest Hfol). rewrite Hlex. reflexivity.
+Qed.
+
+Lemma simple_atom tk t :
+  match tk with TSym _ | TDot | TChar1 _ | TChar2 _ _ => True | _ => False end ->
+  (forall rest, follows_ok terms rest = true -> parse_literal terms (tk :: rest) = POk (t, rest)) ->
+  postfix_follow [tk] = false /\
+  forall rest, follows_ok terms rest = true -> parse_atom rec terms ([tk] ++ rest) = POk (t, rest).
+Proof.
+  intros Hk Hlit. split; [destruct tk; try reflexivity; contradiction|].
+  apply literal_atom; [destruct tk; try exact I; contradiction|exact Hlit].
+Qed.
+
+(* a bracketed operand, given that the recursive call reads its content *)
+Lemma bracket_atom (b : bracket) toksx treex :
+  (match b with Caret c => existsb (Ascii.eqb c) caret_chars = true | _ => True end) ->
+  (forall rest', rec (match b with Caret c => c :: terms | _ => terms end)
+                     (toksx ++ TP (close_text b) :: rest') = POk (treex, TP (close_text b) :: rest')) ->
+  postfix_follow (TP (open_text b) :: toksx ++ [TP (close_text b)]) = false /\
+  forall rest, follows_ok terms rest = true ->
+    parse_atom rec terms ((TP (open_text b) :: toksx ++ [TP (close_text b)]) ++ rest)
+    = POk (PParen (open_text b) treex, rest).
+Proof.
+  intros Hb Hrec. split.
+  - destruct b; reflexivity.
+  - intros rest Hfol. unfold parse_atom. cbn [app].
+    assert (Hopen : opening (open_text b) =
+                    Some (close_text b, match b with Caret c => Some c | _ => None end)).
+    { destruct b as [| |c]; try reflexivity. cbn [open_text close_text]. unfold opening.
+      change (String.eqb (String "^" (String c "")) "(") with false.
+      change (String.eqb (String "^" (String c "")) "<") with false. cbv iota.
+      change (Ascii.eqb "^" "^") with true. cbn [andb].
+      change caret_bracket_chars with caret_chars. rewrite Hb. reflexivity. }
+    rewrite Hopen. unfold bracketed.
+    rewrite <- app_assoc. cbn [app].
+    replace (match (match b with Caret c => Some c | _ => None end) with Some c => c :: terms | None => terms end)
+      with (match b with Caret c => c :: terms | _ => terms end) by (destruct b; reflexivity).
+    rewrite Hrec. rewrite String.eqb_refl. apply call_loop_done. exact Hfol.
+Qed.
+End Atoms.
+
+(* ---- radix-50 literals: the regenerated TABLE gives the standard codes ---------------------------- *)
+Definition r50_char_fact (c : N) : bool :=
+  match r50_code c with
+  | Some k => if N.eqb c 32 then true
+              else rad50_regex_char (ascii_of_N c)
+                   && match index_of (code (upper (ascii_of_N c))) Gen.GenRadix50.rad50_table 0 with
+                      | Some k' => N.eqb k k' | None => false end
+  | None => true
+  end.
+
+Lemma r50_char_facts : forallb r50_char_fact (Base.Range.nrange 128) = true.
+Proof. vm_compute. reflexivity. Qed.
+
+Lemma r50_code_small c k : r50_code c = Some k -> (c < 128)%N.
+Proof.
+  unfold r50_code. intros H.
+  repeat match type of H with
+  | (if ?b then _ else _) = _ => destruct b eqn:?
+  end; try discriminate;
+  repeat match goal with
+  | E : (_ && _)%bool = true |- _ => apply andb_true_iff in E; destruct E
+  | E : N.eqb _ _ = true |- _ => apply N.eqb_eq in E
+  | E : N.leb _ _ = true |- _ => apply N.leb_le in E
+  end; lia.
+Qed.
+
+Lemma r50_char c k : r50_code c = Some k -> c <> 32%N ->
+  rad50_regex_char (ascii_of_N c) = true /\
+  index_of (code (upper (ascii_of_N c))) Gen.GenRadix50.rad50_table 0 = Some k.
+Proof.
+  intros Hk Hne. pose proof (r50_code_small c k Hk) as Hlt.
+  pose proof (Base.Range.nrange_forallb 128 _ r50_char_facts c Hlt) as H.
+  unfold r50_char_fact in H. rewrite Hk in H.
+  replace (N.eqb c 32) with false in H by (symmetry; apply N.eqb_neq; exact Hne).
+  apply andb_true_iff in H. destruct H as [H1 H2]. split; [exact H1|].
+  destruct (index_of _ _ _) as [k'|]; [|discriminate]. apply N.eqb_eq in H2. congruence.
+Qed.
+
+Lemma rad50_lexes cs : lit_ok (LRad50 cs) = true ->
+  exists v, rad50_literal (rad50_string cs) = LexRad v [] /\ r50_word cs = Some v.
+Proof.
+  cbn [lit_ok]. intros H.
+  apply andb_true_iff in H. destruct H as [H Hall].
+  apply andb_true_iff in H. destruct H as [Hne Hle].
+  assert (Hc : forall c, In c cs -> exists k, r50_code c = Some k /\ c <> 32%N).
+  { intros c Hin. rewrite forallb_forall in Hall. specialize (Hall c Hin).
+    destruct (r50_code c) as [k|]; [|discriminate]. exists k. split; [reflexivity|].
+    apply negb_true_iff in Hall. apply N.eqb_neq. exact Hall. }
+  destruct cs as [|a [|b [|c [|d cs]]]]; try discriminate.
+  - destruct (Hc a) as [ka [Ha Hna]]; [left; reflexivity|].
+    destruct (r50_char a ka Ha Hna) as [Ra Ia].
+    exists (ka * 1600 + 0 * 40 + 0)%N. split.
+    + unfold rad50_literal, rad50_string. cbn [map string_of_list_ascii str_forallb]. rewrite Ra.
+      cbn [andb negb String.length N.of_nat str_take str_map].
+      unfold pack_to_int. cbn [list_ascii_of_string map length Nat.sub repeat app]. rewrite Ia.
+      reflexivity.
+    + unfold r50_word. cbn [length Nat.sub repeat app map]. rewrite Ha. reflexivity.
+  - destruct (Hc a) as [ka [Ha Hna]]; [left; reflexivity|].
+    destruct (Hc b) as [kb [Hb Hnb]]; [right; left; reflexivity|].
+    destruct (r50_char a ka Ha Hna) as [Ra Ia]. destruct (r50_char b kb Hb Hnb) as [Rb Ib].
+    exists (ka * 1600 + kb * 40 + 0)%N. split.
+    + unfold rad50_literal, rad50_string. cbn [map string_of_list_ascii str_forallb]. rewrite Ra, Rb.
+      cbn [andb negb String.length N.of_nat str_take str_map].
+      unfold pack_to_int. cbn [list_ascii_of_string map length Nat.sub repeat app]. rewrite Ia, Ib.
+      reflexivity.
+    + unfold r50_word. cbn [length Nat.sub repeat app map]. rewrite Ha, Hb. reflexivity.
+  - destruct (Hc a) as [ka [Ha Hna]]; [left; reflexivity|].
+    destruct (Hc b) as [kb [Hb Hnb]]; [right; left; reflexivity|].
+    destruct (Hc c) as [kc [Hcc Hnc]]; [right; right; left; reflexivity|].
+    destruct (r50_char a ka Ha Hna) as [Ra Ia]. destruct (r50_char b kb Hb Hnb) as [Rb Ib].
+    destruct (r50_char c kc Hcc Hnc) as [Rc Ic].
+    exists (ka * 1600 + kb * 40 + kc)%N. split.
+    + unfold rad50_literal, rad50_string. cbn [map string_of_list_ascii str_forallb]. rewrite Ra, Rb, Rc.
+      cbn [andb negb String.length N.of_nat str_take str_map].
+      unfold pack_to_int. cbn [list_ascii_of_string map length Nat.sub repeat app]. rewrite Ia, Ib, Ic.
+      reflexivity.
+    + unfold r50_word. cbn [length Nat.sub repeat app map]. rewrite Ha, Hb, Hcc. reflexivity.
+Qed.
+
+(* ---- literals as operands ------------------------------------------------------------------------ *)
+Lemma is_bad89_facts ds : is_bad89 ds = true ->
+  ds <> [] /\ Forall (fun d => (d < 10)%N) ds /\ existsb (fun d => (8 <=? d)%N) ds = true.
+Proof.
+  unfold is_bad89. intros H.
+  apply andb_true_iff in H. destruct H as [H H3].
+  apply andb_true_iff in H. destruct H as [H1 H2].
+  repeat split.
+  - destruct ds; [discriminate|discriminate].
+  - apply Forall_forall. intros d Hin. rewrite forallb_forall in H2. apply N.ltb_lt. apply H2. exact Hin.
+  - exact H3.
+Qed.
+
+Lemma lit_atom_good rec terms l : lit_ok l = true ->
+  atom_good (parse_atom rec) terms (lit_tokens l) (lit_tree l).
+Proof.
+  intros Hok. destruct l as [neg st up ud n|neg ds|c|c1 c2|cs].
+  - (* number *)
+    apply (number_atom rec terms neg (spell st up ud n) (signed neg n) false false).
+    apply lex_spell.
+  - (* bare 8/9 *)
+    destruct (is_bad89_facts ds Hok) as [Hne [Hall H89]].
+    pose proof (lex_bare_89_digits neg false ds Hne Hall H89) as Hlex.
+    cbn [lit_tokens lit_tree]. destruct neg.
+    + apply (number_atom rec terms true _ _ false true Hlex).
+    + apply (number_atom rec terms false _ _ true false Hlex).
+  - apply (simple_atom rec terms (TChar1 c)); [exact I|reflexivity].
+  - apply (simple_atom rec terms (TChar2 c1 c2)); [exact I|reflexivity].
+  - destruct (rad50_lexes cs Hok) as [v [Hlex _]].
+    cbn [lit_tokens lit_tree]. fold (rad50_string cs). rewrite Hlex.
+    split; [reflexivity|].
+    apply (literal_atom rec terms [TRad50 (rad50_string cs)]); [exact I|].
+    intros rest Hfol. cbn [app parse_literal]. rewrite Hlex. reflexivity.
+Qed.
+
+Lemma sym_atom_good rec terms s : atom_good (parse_atom rec) terms [TSym s] (PSym s false).
+Proof.
+  apply (simple_atom rec terms (TSym s)); [exact I|].
+  intros rest Hfol. cbn [parse_literal]. rewrite (take_colon_none terms rest Hfol). reflexivity.
+Qed.
+
+Lemma dot_atom_good rec terms : atom_good (parse_atom rec) terms [TDot] PDot.
+Proof. apply (simple_atom rec terms TDot); [exact I|reflexivity]. Qed.
+
+Lemma prefix_no_atom_concrete rec terms u rest : no_num_after u rest = true ->
+  parse_atom rec terms (TP (unop_text u) :: rest) = PNo.
+Proof.
+  intros H. unfold parse_atom.
+  assert (Hop : opening (unop_text u) = None) by (destruct u; reflexivity).
+  rewrite Hop.
+  assert (Hlit : parse_literal terms (TP (unop_text u) :: rest) = PNo).
+  { cbn [parse_literal]. destruct rest as [|tk rest]; [reflexivity|].
+    destruct tk; try reflexivity. destruct u; try reflexivity. discriminate. }
+  rewrite Hlit. reflexivity.
+Qed.
+
+(* ---- shape of the chain of an expression ---------------------------------------------------------- *)
+Fixpoint size (e : expr) : nat :=
+  match e with
+  | Lit _ | Sym _ | Dot => 1
+  | Un _ x => S (size x)
+  | Group _ x => S (size x)
+  | Bin _ l r => S (size l + size r)
+  end.
+
+Definition is_bin (e : expr) : bool := match e with Bin _ _ _ => true | _ => false end.
+
+(* the chain of anything but an operator node is a single operand *)
+Lemma xchain_atom e lead : is_bin e = false -> exists toks t, snd (xchain lead e) = CAtom toks t.
+Proof.
+  revert lead. induction e as [l|s| |u x IH|o l IHl r IHr|b x IH]; intros lead Hb; try discriminate;
+    try (eexists; eexists; reflexivity).
+  (* Un *)
+  cbn [xchain]. destruct lead; [|eexists; eexists; reflexivity].
+  cbn [snd]. destruct x as [l|s| |u2 x2|o2 l2 r2|b2 x2]; try (eexists; eexists; reflexivity).
+  - destruct u; try (eexists; eexists; reflexivity).
+    destruct (unsigned_number l); eexists; eexists; reflexivity.
+  - apply IH. reflexivity.
+Qed.
+
+Lemma xchain_bin_root lead o l r : exists cl cr, snd (xchain lead (Bin o l r)) = CBin o cl cr.
+Proof. rewrite xchain_bin. eexists; eexists; reflexivity. Qed.
+
+Lemma xchain_root_le lead e p : (match e with Bin o _ _ => (cprec o <= p)%nat | _ => True end) ->
+  root_le p (snd (xchain lead e)) = true.
+Proof.
+  intros H. destruct e as [l|s| |u x|o l r|b x];
+    try (match goal with |- context [xchain lead ?e0] =>
+           destruct (xchain_atom e0 lead eq_refl) as [toks [t E]]; rewrite E; reflexivity end).
+  destruct (xchain_bin_root lead o l r) as [cl [cr E]]. rewrite E. simpl. apply Nat.leb_le. exact H.
+Qed.
+
+Lemma xchain_root_lt lead e p : (match e with Bin o _ _ => (cprec o < p)%nat | _ => True end) ->
+  root_lt p (snd (xchain lead e)) = true.
+Proof.
+  intros H. destruct e as [l|s| |u x|o l r|b x];
+    try (match goal with |- context [xchain lead ?e0] =>
+           destruct (xchain_atom e0 lead eq_refl) as [toks [t E]]; rewrite E; reflexivity end).
+  destruct (xchain_bin_root lead o l r) as [cl [cr E]]. rewrite E. simpl. apply Nat.ltb_lt. exact H.
+Qed.
+
+Lemma xchain_cwf : forall e lead, cwf (snd (xchain lead e)) = true.
+Proof.
+  induction e as [l|s| |u x IH|o l IHl r IHr|b x IH]; intros lead; try reflexivity.
+  - (* Un *)
+    destruct (xchain_atom (Un u x) lead eq_refl) as [toks [t E]]. rewrite E. reflexivity.
+  - (* Bin *)
+    rewrite xchain_bin. cbn [snd cwf].
+    assert (HL : root_le (cprec o) (snd (match l with
+        | Bin ol _ _ => if Nat.ltb (cprec o) (cprec ol)
+                        then ([], CAtom (paren (xtoks (xchain true l))) (PParen "(" (xtree (xchain true l))))
+                        else xchain lead l
+        | _ => xchain lead l end)) = true
+      /\ cwf (snd (match l with
+        | Bin ol _ _ => if Nat.ltb (cprec o) (cprec ol)
+                        then ([], CAtom (paren (xtoks (xchain true l))) (PParen "(" (xtree (xchain true l))))
+                        else xchain lead l
+        | _ => xchain lead l end)) = true).
+    { destruct l as [| | | |ol ll lr|]; try (split; [apply xchain_root_le; exact I|apply IHl]).
+      destruct (Nat.ltb (cprec o) (cprec ol)) eqn:E; [split; reflexivity|].
+      split; [|apply IHl]. apply xchain_root_le. apply Nat.ltb_ge in E. exact E. }
+    assert (HR : root_lt (cprec o) (match r with
+        | Bin or _ _ => if Nat.ltb (cprec or) (cprec o)
+                        then snd (xchain false r)
+                        else CAtom (paren (xtoks (xchain true r))) (PParen "(" (xtree (xchain true r)))
+        | _ => snd (xchain false r) end) = true
+      /\ cwf (match r with
+        | Bin or _ _ => if Nat.ltb (cprec or) (cprec o)
+                        then snd (xchain false r)
+                        else CAtom (paren (xtoks (xchain true r))) (PParen "(" (xtree (xchain true r)))
+        | _ => snd (xchain false r) end) = true).
+    { destruct r as [| | | |or rl rr|]; try (split; [apply xchain_root_lt; exact I|apply IHr]).
+      destruct (Nat.ltb (cprec or) (cprec o)) eqn:E; [|split; reflexivity].
+      split; [|apply IHr]. apply xchain_root_lt. apply Nat.ltb_lt in E. exact E. }
+    destruct HL as [HL1 HL2]. destruct HR as [HR1 HR2]. rewrite HL1, HL2, HR1, HR2. reflexivity.
+Qed.
+
+(* ---- no operator of the chain is cut off by a closing character ----------------------------------- *)
+Lemma starts_with_existsb c0 s ts :
+  existsb (fun c => starts_with c (String c0 s)) ts = existsb (Ascii.eqb c0) ts.
+Proof.
+  induction ts as [|c tl IH]; [reflexivity|]. cbn [existsb]. rewrite IH. cbn [starts_with].
+  rewrite Ascii.eqb_sym. reflexivity.
+Qed.
+
+Lemma op_clear_terminated terms o : op_clear terms o = true -> terminated terms (binop_text o) = false.
+Proof.
+  unfold op_clear, terminated. destruct o; cbn [binop_text first_char]; rewrite starts_with_existsb;
+    intros H; apply negb_true_iff in H; exact H.
+Qed.
+
+Lemma xchain_cclear terms : forall e lead, wf terms e = true -> cclear terms (snd (xchain lead e)) = true.
+Proof.
+  induction e as [l|s| |u x IH|o l IHl r IHr|b x IH]; intros lead Hwf; try reflexivity.
+  - destruct (xchain_atom (Un u x) lead eq_refl) as [toks [t E]]. rewrite E. reflexivity.
+  - cbn [wf] in Hwf.
+    apply andb_true_iff in Hwf. destruct Hwf as [Hwf Hwr].
+    apply andb_true_iff in Hwf. destruct Hwf as [Hop Hwl].
+    rewrite xchain_bin. cbn [snd cclear].
+    rewrite (op_clear_terminated terms o Hop). cbn [negb andb].
+    apply andb_true_iff. split.
+    + destruct l as [| | | |ol ll lr|]; try (apply IHl; exact Hwl).
+      destruct (Nat.ltb (cprec o) (cprec ol)); [reflexivity|apply IHl; exact Hwl].
+    + destruct r as [| | | |or rl rr|]; try (apply IHr; exact Hwr).
+      destruct (Nat.ltb (cprec or) (cprec o)); [apply IHr; exact Hwr|reflexivity].
+Qed.
+
+(* ---- the '-' in front of the first operand is never in front of an unsigned number ----------------- *)
+Lemma xchain_un_lead u x : exists p c, xchain true (Un u x) = (u :: p, c).
+Proof. cbn [xchain]. eexists; eexists; reflexivity. Qed.
+
+Lemma pre_ok_cons u p toks : p <> [] -> pre_ok (u :: p) toks = pre_ok p toks.
+Proof. destruct p; [congruence|reflexivity]. Qed.
+
+Lemma xchain_pre_ok : forall e, pre_ok (fst (xchain true e)) (fst (cfirst (snd (xchain true e)))) = true.
+Proof.
+  induction e as [l|s| |u x IH|o l IHl r IHr|b x IH]; try reflexivity.
+  - (* Un *)
+    cbn [xchain fst snd].
+    destruct x as [l|s| |u2 x2|o2 l2 r2|b2 x2].
+    + destruct u; try reflexivity.
+      destruct l as [neg st up ud n|neg ds|c|c1 c2|cs]; try reflexivity; destruct neg; reflexivity.
+    + destruct u; reflexivity.
+    + destruct u; reflexivity.
+    + destruct (xchain_un_lead u2 x2) as [p [c E]]. rewrite E in *. cbn [fst snd] in *.
+      rewrite pre_ok_cons by discriminate. exact IH.
+    + destruct u; reflexivity.
+    + destruct u; reflexivity.
+  - (* Bin *)
+    rewrite xchain_bin. cbn [fst snd cfirst].
+    destruct l as [| | | |ol ll lr|]; try exact IHl.
+    destruct (Nat.ltb (cprec o) (cprec ol)); [reflexivity|exact IHl].
+Qed.
+
+(* ---- sizes ---------------------------------------------------------------------------------------- *)
+Lemma atoms_good_len atom terms c : atoms_good atom terms c -> (citers c < length (ctoks c))%nat.
+Proof.
+  induction c as [toks t|o l IHl r IHr]; intros H.
+  - destruct H as [Hpf _]. destruct toks; [discriminate|simpl; lia].
+  - destruct H as [Hl Hr]. specialize (IHl Hl). specialize (IHr Hr).
+    cbn [citers ctoks]. rewrite app_length. cbn [length]. lia.
+Qed.
+
+Lemma pre_tokens_length pre : length (pre_tokens pre) = length pre.
+Proof. unfold pre_tokens. apply map_length. Qed.
+
+(* ================================================================================================ *)
+(* 5. the theorem *)
+Definition Main (e : expr) : Prop :=
+  forall terms rest f,
+    wf terms e = true -> terms_ok terms = true -> stop_ok terms rest = true ->
+    (length (pr true e) < f)%nat ->
+    parse_expr f terms (pr true e ++ rest) = POk (xtree (xchain true e), rest).
+
+Lemma terms_ok_cons c terms : existsb (Ascii.eqb c) caret_chars = true -> terms_ok terms = true ->
+  terms_ok (c :: terms) = true.
+Proof. unfold terms_ok. intros H1 H2. cbn [forallb]. rewrite H1, H2. reflexivity. Qed.
+
+(* a bracketed sub-expression is a good operand once its content is known to parse *)
+Lemma bracket_good f terms b x :
+  Main x ->
+  wf terms (Group b x) = true -> terms_ok terms = true ->
+  (length (pr true x) < f)%nat ->
+  atom_good (parse_atom (parse_expr f)) terms
+    (TP (open_text b) :: xtoks (xchain true x) ++ [TP (close_text b)])
+    (PParen (open_text b) (xtree (xchain true x))).
+Proof.
+  intros HM Hwf Hok Hf.
+  apply bracket_atom.
+  - destruct b as [| |c]; try exact I. cbn [wf] in Hwf. apply andb_true_iff in Hwf. apply Hwf.
+  - intros rest'. rewrite xtoks_pr. apply HM.
+    + destruct b as [| |c]; cbn [wf] in Hwf; try exact Hwf. apply andb_true_iff in Hwf. apply Hwf.
+    + destruct b as [| |c]; try exact Hok. cbn [wf] in Hwf. apply andb_true_iff in Hwf.
+      apply terms_ok_cons; [apply Hwf|exact Hok].
+    + destruct b as [| |c]; cbn [stop_ok close_text].
+      * apply orb_true_iff. left. apply orb_true_r.
+      * apply orb_true_r.
+      * cbn [terminated existsb starts_with]. rewrite Ascii.eqb_refl. reflexivity.
+    + exact Hf.
+Qed.
+
+Lemma paren_good f terms x :
+  Main x -> wf terms x = true -> terms_ok terms = true -> (length (pr true x) < f)%nat ->
+  atom_good (parse_atom (parse_expr f)) terms
+    (paren (xtoks (xchain true x))) (PParen "(" (xtree (xchain true x))).
+Proof. intros HM Hwf Hok Hf. apply (bracket_good f terms Paren x HM Hwf Hok Hf). Qed.
+
+Lemma paren_length ts : length (paren ts) = S (S (length ts)).
+Proof. unfold paren. cbn [length]. rewrite app_length. cbn [length]. lia. Qed.
+
+Section Induction.
+Variable N : nat.
+Hypothesis HN : forall x, (size x < N)%nat -> Main x.
+Variable f : nat.
+
+Lemma atoms_good_of : forall e lead terms,
+  wf terms e = true -> terms_ok terms = true ->
+  (length (pr lead e) <= f)%nat ->
+  (size e + (if lead then 0 else 1) <= N)%nat ->
+  atoms_good (parse_atom (parse_expr f)) terms (snd (xchain lead e)).
+Proof.
+  induction e as [l|s| |u x IH|o l IHl r IHr|b x IH]; intros lead terms Hwf Hok Hf Hsz.
+  - apply lit_atom_good. exact Hwf.
+  - apply sym_atom_good.
+  - apply dot_atom_good.
+  - (* Un *)
+    destruct lead.
+    + cbn [xchain snd]. cbn [pr] in Hf. cbn [size] in Hsz. cbn [wf] in Hwf.
+      destruct x as [l|s| |u2 x2|o2 l2 r2|b2 x2].
+      * (* literal *)
+        destruct u; try (apply (IH false terms Hwf Hok); [cbn [length] in Hf; lia|lia]).
+        destruct (unsigned_number l) eqn:E.
+        -- apply paren_good; try assumption.
+           ++ apply HN. cbn [size] in *. lia.
+           ++ cbn [length] in Hf. rewrite paren_length in Hf. lia.
+        -- apply (IH false terms Hwf Hok); [cbn [length] in Hf; lia|lia].
+      * apply (IH false terms Hwf Hok); [cbn [length] in Hf; lia|lia].
+      * apply (IH false terms Hwf Hok); [cbn [length] in Hf; lia|lia].
+      * apply (IH true terms Hwf Hok); [cbn [length] in Hf; lia|lia].
+      * apply paren_good; try assumption.
+        -- apply HN. lia.
+        -- cbn [length] in Hf. rewrite paren_length in Hf. lia.
+      * apply (IH false terms Hwf Hok); [cbn [length] in Hf; lia|lia].
+    + (* not leading: the whole prefixed operand is bracketed *)
+      pose proof (paren_good f terms (Un u x)) as HP.
+      cbn [xchain] in HP. cbn [xchain snd]. apply HP.
+      * apply HN. lia.
+      * exact Hwf.
+      * exact Hok.
+      * cbn [pr] in Hf. rewrite paren_length in Hf. cbn [pr]. lia.
+  - (* Bin *)
+    cbn [wf] in Hwf.
+    apply andb_true_iff in Hwf. destruct Hwf as [Hwf Hwr].
+    apply andb_true_iff in Hwf. destruct Hwf as [Hop Hwl].
+    rewrite pr_bin in Hf. rewrite app_length in Hf. cbn [length] in Hf. cbn [size] in Hsz.
+    rewrite xchain_bin. cbn [snd atoms_good]. split.
+    + destruct l as [| | | |ol ll lr|];
+        try (apply (IHl lead terms Hwl Hok); [lia|destruct lead; lia]).
+      destruct (Nat.ltb (cprec o) (cprec ol)).
+      * cbn [snd]. apply paren_good; try assumption.
+        -- apply HN. destruct lead; lia.
+        -- rewrite paren_length in Hf. lia.
+      * apply (IHl lead terms Hwl Hok); [lia|destruct lead; lia].
+    + destruct r as [| | | |or rl rr|];
+        try (apply (IHr false terms Hwr Hok); [lia|destruct lead; lia]).
+      destruct (Nat.ltb (cprec or) (cprec o)).
+      * apply (IHr false terms Hwr Hok); [lia|destruct lead; lia].
+      * apply paren_good; try assumption.
+        -- apply HN. destruct lead; lia.
+        -- rewrite paren_length in Hf. lia.
+  - (* Group *)
+    cbn [xchain snd atoms_good]. apply bracket_good; try assumption.
+    + apply HN. cbn [size] in Hsz. destruct lead; lia.
+    + cbn [pr length] in Hf. rewrite app_length in Hf. cbn [length] in Hf. lia.
+Qed.
+End Induction.
+
+Lemma main_by_size : forall N e, (size e < N)%nat -> Main e.
+Proof.
+  induction N as [|N IHN]; intros e Hsz; [lia|].
+  unfold Main. intros terms rest f Hwf Hok Hstop Hf.
+  destruct f as [|f']; [lia|].
+  assert (Hgood : atoms_good (parse_atom (parse_expr f')) terms (snd (xchain true e))).
+  { apply (atoms_good_of N IHN f' e true terms Hwf Hok); lia. }
+  pose proof (level_parses (parse_atom (parse_expr f')) terms
+                (prefix_no_atom_concrete (parse_expr f') terms)
+                (fst (xchain true e)) (snd (xchain true e)) rest f'
+                Hok (xchain_cwf e true) (xchain_cclear terms e true Hwf) Hgood
+                (xchain_pre_ok e) Hstop) as HL.
+  assert (Hlen : (length (fst (xchain true e)) + citers (snd (xchain true e)) < f')%nat).
+  { pose proof (atoms_good_len _ _ _ Hgood) as H1.
+    pose proof (xtoks_pr e true) as H2. unfold xtoks in H2.
+    assert (H3 : length (pr true e) = (length (fst (xchain true e)) + length (ctoks (snd (xchain true e))))%nat).
+    { rewrite <- H2. rewrite app_length, pre_tokens_length. reflexivity. }
+    lia. }
+  specialize (HL Hlen).
+  cbn [parse_expr]. 
+  pose proof (xtoks_pr e true) as H2. unfold xtoks in H2. rewrite <- H2. rewrite <- app_assoc.
+  exact HL.
+Qed.
+
+Lemma parse_print_expr : forall e terms rest f,
+  wf terms e = true -> terms_ok terms = true -> stop_ok terms rest = true ->
+  (length (pr true e) < f)%nat ->
+  parse_expr f terms (pr true e ++ rest) = POk (xtree (xchain true e), rest).
+Proof. intros e. apply (main_by_size (S (size e)) e). lia. Qed.
+
+(* a whole operand *)
+Lemma parse_print_operand : forall e, wf [] e = true ->
+  parse_operand (print_min e) = POk (xtree (xchain true e)).
+Proof.
+  intros e Hwf. unfold parse_operand, print_min.
+  pose proof (parse_print_expr e [] [] (S (S (length (pr true e)))) Hwf eq_refl eq_refl) as H.
+  rewrite app_nil_r in H. rewrite H by lia. reflexivity.
+Qed.
